@@ -41,7 +41,11 @@ DEFAULT_PINS = [cidr_bits(c) for c in (
 PRIVATE_NETS = ["10.0.0.0/8", "172.16.0.0/12", "192.168.0.0/16"]
 
 
-class BaseAtWidth(ipa._BaseIpAnonymizer):
+_Base = getattr(ipa, "_BaseIpAnonymizer", None)      # opportunistic seam: skipped (and reported) when a refactoring removes it
+HAVE_BASE = _Base is not None
+
+
+class BaseAtWidth(_Base if HAVE_BASE else object):
     """The width-generic base class instantiated at an arbitrary width."""
 
     def __init__(self, salt, length, **kw):
@@ -169,7 +173,7 @@ def embed_models(w, ps, pins, nets, table, kinds=("v4", "base", "v6")):
     if "v4" in kinds:
         a = make_v4("", ps=32 - w + ps, pins=pin_c, nets=net_c or None, salter=table_salter(table))
         out.append(("v4", 32, a, (32, 32 - w + ps, pins, nets), 32 - w))
-    if "base" in kinds and not pins and not nets:
+    if "base" in kinds and HAVE_BASE and not pins and not nets:
         a = BaseAtWidth("", w, salter=table_salter(table), preserve_suffix=ps)
         out.append(("base", w, a, (w, ps, [], []), 0))
     if "v6" in kinds and not pins and not nets:
